@@ -477,6 +477,8 @@ func (k *Keeper) SetAllPrevConsKeys(ctx sdk.Context, prevConsKeys []types.PrevCo
 		bz := k.cdc.MustMarshal(wrappedKey.ToTmProtoKey())
 
 		store.Set(types.KeyForChainIDAndOperatorToPrevConsKey(chainID, opAccAddr), bz)
+		// the previous key keeps resolving to its operator until it is pruned, so that it can still be slashed
+		store.Set(types.KeyForChainIDAndConsKeyToOperator(chainID, wrappedKey.ToConsAddr()), opAccAddr.Bytes())
 	}
 	return nil
 }
